@@ -1,10 +1,14 @@
 import UtilModel.Core.Driver
 import UtilModel.Treiber.Model
 import UtilModel.Treiber.Monitors
-/-! Development driver for this component only: `lake env lean --run UtilModel/Treiber/TestDriver.lean lifo < hist` -/
+import UtilModel.LinkedList.Model
+import UtilModel.LinkedList.Monitors
+/-! Development driver for the C12 package (both components):
+`lake env lean --run UtilModel/Treiber/TestDriver.lean lifo < hist` -/
 open UtilModel
 
 def main (args : List String) : IO UInt32 :=
   driverMain [
-    mkEntry "lifo" Treiber.model Treiber.Obs.parse [MonEntry.ofMonitor "C12" Treiber.monTriv]
+    mkEntry "lifo" Treiber.model Treiber.Obs.parse [MonEntry.ofMonitor "C12" Treiber.monC12],
+    mkEntry "linkedlist" LinkedList.model LinkedList.parseObs [MonEntry.ofMonitor "C12" LinkedList.monC12]
   ] args
